@@ -223,11 +223,17 @@ def build_labware(rt, spec, shared=None, index=None):
     if index is not None:
         shared[index] = arr
     if spec["kind"] == "plate":
+        # a replica is built from the very same objects as its original: the ndarray and the names dict
+        names = spec.get("names")
+        if "replica_of" in spec and ("names", spec["replica_of"]) in shared:
+            names = shared[("names", spec["replica_of"])]
+        if index is not None:
+            shared[("names", index)] = names
         return rt.Labware(
             spec["name"], spec["rows"], spec["cols"],
             min_volume=dec(spec["min"]), max_volume=dec(spec["max"]),
             initial_volumes=arr,
-            component_names=spec.get("names"),
+            component_names=names,
         )
     if spec.get("via_labware"):
         # the documented low-level way to make a trough: Labware(rows=1, virtual_rows=N) - every filled column
